@@ -1442,6 +1442,24 @@ static XRes c07Run(uint64_t sub, int nsteps, bool count)
             if(count) S.count("c07.solves");
             break;
          }
+         case 46:
+         {
+            // an exact solve in between (feasibility / unboundedness tests add and remove auxiliary columns and rows, lifting and
+            // equality transformations rewrite the rational LP): afterwards both LPs and the bound-type arrays must be as before
+            cur = "optimize(exact)";
+            if(n == 0 || m == 0 || !g.chance(0.5)) continue;
+            sp.setIntParam(SoPlex::SOLVEMODE, SoPlex::SOLVEMODE_RATIONAL, true);
+            sp.setIntParam(SoPlex::ITERLIMIT, 2000, true);
+            sp.setRealParam(SoPlex::TIMELIMIT, 10.0, true);
+            sp.optimize();
+            sp.setIntParam(SoPlex::SOLVEMODE, SoPlex::SOLVEMODE_REAL, true);
+            if(count)
+            {
+               S.count("c07.exact_solves");
+               S.count(std::string("c07.exact_solves.") + statusName((int)sp.status()));
+            }
+            break;
+         }
          case 45:
          {
             // clear both LPs through either interface, then rebuild (bound classes of the new rows/columns differ from the old ones)
